@@ -35,7 +35,7 @@ var engineAssumptions = []string{
 var checks = []Check{
 	{
 		ID: "C20", Title: "connection and request statistics are conserved", Level: "model_checking",
-		LevelText:   "every history up to depth 4/5 of connects, disconnects, successful / unsupported / invalid / multi-key requests, MOVED and ASK redirections, node down/up, backend resets, connection-limit rejections, host removal, ending either with every client closed or with Stop while connections are open, on the real Redis and TCP processors with their real listeners; counters read through the stats objects as deltas at every quiescent point; the free-running race pass of the redis and TCP processors (unmodified code, -race); Stop racing arriving requests (P1 F1 / P2 F1); a client that goes away with its request in flight; two relayed connections ending at once (plain statistic reads/writes are scheduling points, run-last policy); a pipeline cut off in the middle of a request; upstream connection statistics conserved; a replace-hosts notice",
+		LevelText:   "every history up to depth 4/5 of connects, disconnects, successful / unsupported / invalid / multi-key requests, MOVED and ASK redirections, node down/up, backend resets, connection-limit rejections, host removal, ending either with every client closed or with Stop while connections are open, on the real Redis and TCP processors with their real listeners; counters read through the stats objects as deltas at every quiescent point; the free-running race pass of the redis and TCP processors (unmodified code, -race); Stop racing arriving requests (P1 F1 / P2 F1); a client that goes away with its request in flight; two relayed connections ending at once (plain statistic reads/writes are scheduling points, run-last policy); a pipeline cut off in the middle of a request; upstream connection statistics conserved; a replace-hosts notice; the listener alone with Stop / Drain racing arrivals: downstream counters conserved after Stop (C09/listener)",
 		Technique:   "exhaustive enumeration of traffic/fault histories on the real processors under a controlled scheduler",
 		Assumptions: append([]string{"counters are process-wide; each execution compares against a snapshot taken at its own start", "default schedule per operation"}, engineAssumptions...),
 		Jobs: []Job{
@@ -43,6 +43,7 @@ var checks = []Check{
 			{Pkg: "proc/redis", Scenarios: []string{"C20/stop-racing-request"}, Shards: 16, QuickS: 120, ThoroughS: 240},
 			{Pkg: "proc/redis", Scenarios: []string{"C20/redis"}, Shards: 16, QuickS: 90, ThoroughS: 240},
 			{Pkg: "proc/tcp", Scenarios: []string{"C20/tcp"}, Shards: 16, QuickS: 60, ThoroughS: 240},
+			{Pkg: "proc", Scenarios: []string{"C09/listener"}, Shards: 16, QuickS: 120, ThoroughS: 240}, // the listener alone: Stop / Drain racing arrivals, downstream counters conserved after Stop
 			{Pkg: "proc/tcp", Scenarios: []string{"C05/stack-race"}, Race: true, Shards: 1, QuickS: 120, ThoroughS: 240},
 		},
 	},
@@ -130,13 +131,13 @@ var checks = []Check{
 	},
 	{
 		ID: "C04", Title: "slot migration and failover are invisible to clients", Level: "model_checking",
-		LevelText:   "every history up to depth 4/5 (plus full migration scripts) over set-migrating / migrate key / finalise / failover (old master up or down) / refresh round interleaved with GET SET INCR DEL MGET on the moving and a stable slot group, on the real proxy stack against the mini cluster (ASK for absent keys of a migrating slot, ASKING consumed by the next command, MOVED from non-owners and replicas); plus all schedules within bounds of an ASK-redirected INCR racing with other traffic on the target node's connection; migration to a fresh master that owns no slots; an outage of the slot owner with a command meanwhile; failover + host-removal notice while a refresh answered from the old topology is in flight; redirected writes with transparent compression on (C13/histories); failover announced by a host-removal notice; pipelines of non-commuting commands one of which the node refuses with -CLUSTERDOWN; host removal / replacement / stop racing a redirected request; a redirection target that cannot serve",
+		LevelText:   "every history up to depth 4/5 (plus full migration scripts) over set-migrating / migrate key / finalise / failover (old master up or down) / refresh round interleaved with GET SET INCR DEL MGET on the moving and a stable slot group, on the real proxy stack against the mini cluster (ASK for absent keys of a migrating slot, ASKING consumed by the next command, MOVED from non-owners and replicas); plus all schedules within bounds of an ASK-redirected INCR racing with other traffic on the target node's connection; migration to a fresh master that owns no slots; an outage of the slot owner with a command meanwhile; failover + host-removal notice while a refresh answered from the old topology is in flight; redirected writes with transparent compression on (C13/histories); failover announced by a host-removal notice; pipelines of non-commuting commands one of which the node refuses with -CLUSTERDOWN; host removal / replacement / stop racing a redirected request; a redirection target that cannot serve; a cluster that announces host names in its redirections",
 		Technique:   "exhaustive enumeration of migration/failover histories + preemption/delay-bounded schedule exploration on the real proxy stack",
 		Assumptions: append([]string{"mini Redis Cluster redirection rules written from redis-server 5.0 getNodeByQuery; ownership changes are atomic cluster-wide (no gossip lag); replicas share their master's data", "errors are tolerated after a failover whose old master is down until the next periodic refresh round completed (the proxy cannot know earlier; deliberately weaker than the statement)"}, engineAssumptions...),
 		Jobs: []Job{
 			{Pkg: "proc/redis", Scenarios: []string{"C04/histories"}, Shards: 16, QuickS: 90, ThoroughS: 240},
 			{Pkg: "proc/redis", Scenarios: []string{"C02/stack-race"}, Race: true, Shards: 1, QuickS: 120, ThoroughS: 240},
-			{Pkg: "proc/redis", Scenarios: []string{"C02/redirect-target"}, Shards: 16, QuickS: 180, ThoroughS: 240},
+			{Pkg: "proc/redis", Scenarios: []string{"C02/redirect-target", "C02/scan-host-change"}, Shards: 16, QuickS: 180, ThoroughS: 240},
 			{Pkg: "proc/redis", Scenarios: []string{"C09/redis-collect"}, Shards: 8, QuickS: 90, ThoroughS: 240},       // a host-removal notice (failover) while the hot-key collection runs
 			{Pkg: "proc/redis", Scenarios: []string{"C02/upstream-redirect"}, Shards: 16, QuickS: 150, ThoroughS: 240}, // a host-removal / replace / stop racing a redirected request
 			{Pkg: "proc/redis", Scenarios: []string{"C04/asking"}, Shards: 16, QuickS: 90, ThoroughS: 240},
@@ -147,7 +148,7 @@ var checks = []Check{
 	},
 	{
 		ID: "C07", Title: "the proxy heals after connection loss and topology change", Level: "model_checking",
-		LevelText:   "every history up to depth 5/6 (plus selected deeper convergence histories) over connection resets, node down/up, slot-group moves (including the last group of a master) and refresh rounds on the real proxy stack; requests issued at quiescence and compared with a single-server reference; redirections must stop within two refresh rounds after the first redirection; the same histories one level less deep with nodes known by host name (connection address differs from the backend's key); schedule exploration of simultaneous connection losses and of a layout change + redirection while a refresh answered from the old layout is in flight; a request redirected while the upstream is stopped / its hosts replaced; a restarting node (next connect accepted-and-reset, refused or slow) with requests meanwhile, P2 F2 inside that window; the proxy starting before its cluster (seeds refusing or not answering connects); a replica changing its master",
+		LevelText:   "every history up to depth 5/6 (plus selected deeper convergence histories) over connection resets, node down/up, slot-group moves (including the last group of a master) and refresh rounds on the real proxy stack; requests issued at quiescence and compared with a single-server reference; redirections must stop within two refresh rounds after the first redirection; the same histories one level less deep with nodes known by host name (connection address differs from the backend's key); schedule exploration of simultaneous connection losses and of a layout change + redirection while a refresh answered from the old layout is in flight; a request redirected while the upstream is stopped / its hosts replaced; a restarting node (next connect accepted-and-reset, refused or slow) with requests meanwhile, P2 F2 inside that window; the proxy starting before its cluster (seeds refusing or not answering connects); a replica changing its master; a connection that is lost without any packet (write times out)",
 		Technique:   "exhaustive enumeration of fault/topology histories on the real proxy stack under a controlled scheduler with virtual time",
 		Assumptions: append([]string{"mini Redis Cluster (ownership changes are atomic cluster-wide; a restarted node keeps its data)", "default schedule per operation; the random seed-host choice rotates fairly"}, engineAssumptions...),
 		Jobs: []Job{
@@ -177,7 +178,7 @@ var checks = []Check{
 	},
 	{
 		ID: "C02", Title: "every request is answered exactly once, even when backends fail", Level: "model_checking",
-		LevelText:   "stateless exploration of all schedules within preemption/delay/select bounds of the real goroutines: (1) one backend client with 2 senders, optional Stop and five backend behaviours, (2) the real upstream with two nodes and a concurrent host removal / replacement / stop / node reset / node down, (3) the full proxy stack with a pipeline of two and a backend connection reset before any node-side read or write; oracle at quiescence: every request completed exactly once (double completion panics), no caller parked for ever; host removal/replacement/stop while the first request is being MOVED-redirected; Stop while the first backend connect is in progress; compression-filter rejections inside pipelines with backend faults; free-running race pass of the whole redis stack; a request redirected to a target that refuses, resets after accepting or loses its connection; a backend that never reads (bounded buffers) and then half-closes; a backend that answers once and then sends a malformed reply; a backend client stopped while the hot-key collection runs",
+		LevelText:   "stateless exploration of all schedules within preemption/delay/select bounds of the real goroutines: (1) one backend client with 2 senders, optional Stop and five backend behaviours, (2) the real upstream with two nodes and a concurrent host removal / replacement / stop / node reset / node down, (3) the full proxy stack with a pipeline of two and a backend connection reset before any node-side read or write; oracle at quiescence: every request completed exactly once (double completion panics), no caller parked for ever; host removal/replacement/stop while the first request is being MOVED-redirected; Stop while the first backend connect is in progress; compression-filter rejections inside pipelines with backend faults; free-running race pass of the whole redis stack; a request redirected to a target that refuses, resets after accepting or loses its connection; a backend that never reads (bounded buffers) and then half-closes; a backend that answers once and then sends a malformed reply; a backend client stopped while the hot-key collection runs; a SCAN call addressing the last node while that node leaves the host list (P2 / P3 F1)",
 		Technique:   "preemption/delay-bounded stateless schedule exploration of the real goroutines under a controlled scheduler with fault injection at every network operation",
 		Assumptions: engineAssumptions,
 		Jobs: []Job{
@@ -187,7 +188,7 @@ var checks = []Check{
 			{Pkg: "proc/redis", Scenarios: []string{"C02/client"}, Shards: 16, QuickS: 80, ThoroughS: 240},
 			{Pkg: "proc/redis", Scenarios: []string{"C02/upstream"}, Shards: 16, QuickS: 80, ThoroughS: 240},
 			{Pkg: "proc/redis", Scenarios: []string{"C09/redis-collect"}, Shards: 8, QuickS: 90, ThoroughS: 240}, // a backend client stopped while the hot-key collection runs: later requests must still be answered
-			{Pkg: "proc/redis", Scenarios: []string{"C02/redirect-target"}, Shards: 16, QuickS: 180, ThoroughS: 240},
+			{Pkg: "proc/redis", Scenarios: []string{"C02/redirect-target", "C02/scan-host-change"}, Shards: 16, QuickS: 180, ThoroughS: 240},
 			{Pkg: "proc/redis", Scenarios: []string{"C02/upstream-redirect"}, Shards: 16, QuickS: 150, ThoroughS: 240},
 			{Pkg: "proc/redis", Scenarios: []string{"C09/redis-stop"}, Shards: 16, QuickS: 80, ThoroughS: 240},
 			{Pkg: "proc/redis", Scenarios: []string{"C02/stack"}, Shards: 16, QuickS: 80, ThoroughS: 240},
